@@ -30,6 +30,13 @@ pub fn gap_case(ts: u8, ns: u8, hsa: u8, g: u8, newcomer: Option<(u8, usize)>, o
 /// `lose_after`: after that many token visits the successor keeps the token for good (it was
 /// lost); the station must claim a new one and then poll its WHOLE GAP at once again.
 pub fn gap_case_ext(ts: u8, ns: u8, hsa: u8, g: u8, newcomer: Option<(u8, usize)>, lose_after: Option<usize>, obs: &mut Obs) -> CaseResult {
+    gap_case_full(ts, ns, hsa, g, newcomer, lose_after, &[], obs)
+}
+
+/// `passive`: addresses inside the GAP at which a passive station (DP slave) answers the status
+/// request with 'slave' - it must neither become successor nor change the sweep.
+#[allow(clippy::too_many_arguments)]
+pub fn gap_case_full(ts: u8, ns: u8, hsa: u8, g: u8, newcomer: Option<(u8, usize)>, lose_after: Option<usize>, passive: &[u8], obs: &mut Obs) -> CaseResult {
     let mut w = World::new(ts, hsa, Baudrate::B1500000, 300, g, None);
     w.step_us = 13;
     let gap0 = gap_set(ts, ns, hsa);
@@ -120,6 +127,8 @@ pub fn gap_case_ext(ts: u8, ns: u8, hsa: u8, g: u8, newcomer: Option<(u8, usize)
                     }
                     if da == cur_ns && cur_ns != ts {
                         pending.push((end + w.bit_us(12), status_resp(ts, cur_ns, if established && !reclaiming { 3 } else { 2 })));
+                    } else if passive.contains(&da) && Some(da) != newcomer.map(|n| n.0) {
+                        pending.push((end + w.bit_us(12), status_resp(ts, da, 0)));
                     } else if newcomer_active && Some(da) == newcomer.map(|n| n.0) && da != cur_ns {
                         // the newcomer answers as a ready master: it must become the successor
                         pending.push((end + w.bit_us(12), status_resp(ts, da, 2)));
@@ -491,6 +500,28 @@ pub fn property() -> Property {
                 obs.sample(|| json!({"ts": ts, "ns": ns, "hsa": hsa, "gap_factor": g, "newcomer": nc, "appears_after_visits": after}));
                 gap_case(ts, ns, hsa, g, Some((nc, after)), obs)
             }),
+            SubCheck::tape("gap_passive", "passive stations (DP slaves) inside the GAP answer the polls with 'slave': same sweep rules, one poll per visit, nobody adopted", |t, obs| {
+                let hsa = 3 + t.below(30) as u8;
+                let ts = t.below(u64::from(hsa)) as u8;
+                let ns = t.below(u64::from(hsa)) as u8;
+                let g = 1 + t.below(5) as u8;
+                let gap = gap_set(ts, ns, hsa);
+                let mut passive = vec![];
+                for a in &gap {
+                    if t.chance(1, 3) {
+                        passive.push(*a);
+                    }
+                }
+                if passive.is_empty() && !gap.is_empty() {
+                    passive.push(gap[0]);
+                }
+                obs.nontrivial(fingerprint(&(ts, ns, hsa, g, &passive)));
+                if passive.windows(2).any(|w| w[1] == w[0] + 1) {
+                    obs.label("adjacent-passive-stations");
+                }
+                obs.sample(|| json!({"ts": ts, "ns": ns, "hsa": hsa, "gap_factor": g, "passive_stations_in_gap": passive}));
+                gap_case_full(ts, ns, hsa, g, None, None, &passive, obs)
+            }),
             SubCheck::tape("gap_reclaim", "the token is lost after some visits (mid-sweep or during the pause): after the re-claim the whole GAP must be polled at once again", |t, obs| {
                 let hsa = 3 + t.below(24) as u8;
                 let ts = t.below(u64::from(hsa)) as u8;
@@ -511,12 +542,14 @@ pub fn property() -> Property {
             Tier::Quick => vec![
                 Step::Enumerate { kind: "gap_triples", count: 2 * triples_up_to(40) },
                 Step::Pbt { kind: "gap_newcomer", cases: 3000, max_len: 16 },
+                Step::Pbt { kind: "gap_passive", cases: 3000, max_len: 48 },
                 Step::Pbt { kind: "gap_reclaim", cases: 3000, max_len: 16 },
                 Step::Pbt { kind: "status_replies", cases: 12_000, max_len: 260 },
             ],
             Tier::Thorough => vec![
                 Step::Enumerate { kind: "gap_triples", count: 2 * triples_up_to(126) },
                 Step::Pbt { kind: "gap_newcomer", cases: 20_000, max_len: 16 },
+                Step::Pbt { kind: "gap_passive", cases: 20_000, max_len: 48 },
                 Step::Pbt { kind: "gap_reclaim", cases: 20_000, max_len: 16 },
                 Step::Pbt { kind: "status_replies", cases: 100_000, max_len: 260 },
             ],
